@@ -19,7 +19,7 @@ from . import ast as A
 PROFILES = ["bitfield", "array", "payload", "optional", "inherit", "enum", "groups", "small",
             "mix", "structs", "hostile", "matrix"]
 # descriptions per unit of n_per_profile (the matrix profile has four fixed parts)
-PROFILE_MULT = {"matrix": 2}
+PROFILE_MIN = {"matrix": 6}   # at least one description per part, whatever the tier
 
 SCALAR_WIDTHS = [1, 2, 3, 4, 5, 7, 8, 8, 9, 12, 15, 16, 16, 17, 23, 24, 24, 25, 31, 32, 32, 33, 40,
                  47, 48, 55, 56, 57, 63, 64]
@@ -357,7 +357,7 @@ def fill_item(ctx, b, depth, static_only=False):
 
 
 def add_array(ctx, b, depth, shapes, elems, allow_pad=True, hostile=False, allow_es=True, es_force=None,
-              pad_force=None):
+              pad_force=None, modifier=None, width=None):
     """Append header field(s) + an array field (+ padding). es_force / pad_force: None = random."""
     rng = ctx.rng
     aid = ctx.fid()
@@ -371,10 +371,14 @@ def add_array(ctx, b, depth, shapes, elems, allow_pad=True, hostile=False, allow
         width = 8
         elem_static_bytes = 1
     elif elem == "scalar":
-        width = rng.choice([16, 16, 24, 32, 40, 48, 56, 64])
+        width = width or rng.choice([16, 16, 24, 32, 40, 48, 56, 64])
         elem_static_bytes = width // 8
     elif elem == "enum":
-        type_id, w = some_enum(ctx, byte_sized=True)
+        if width:
+            type_id, w = gen_enum(ctx, width=width)
+            width = None
+        else:
+            type_id, w = some_enum(ctx, byte_sized=True)
         elem_static_bytes = w // 8
         ctx.features.add("enum_array")
     elif elem == "static":
@@ -409,7 +413,10 @@ def add_array(ctx, b, depth, shapes, elems, allow_pad=True, hostile=False, allow
     size = None
     if shape == "static":
         size = rng.choice([1, 2, 3, 4, 5, 8, 16, 31, 32]) if elem in ("u8", "scalar", "enum") else rng.choice([1, 2, 3, 4])
-    b.fields.append(A.array(aid, width=width, type_id=type_id, size=size))
+    b.fields.append(A.array(aid, width=width, type_id=type_id, size=size,
+                            size_modifier=("+%d" % modifier) if modifier and shape == "size" else None))
+    if modifier and shape == "size":
+        ctx.features.add("array_size_modifier")
     want_pad = (rng.random() < 0.3) if pad_force is None else pad_force
     if allow_pad and shape in ("count", "size", "static") and want_pad:
         if shape == "static" and elem_static_bytes is not None:
@@ -912,16 +919,16 @@ def p_struct_users(ctx):
     root_fields.append(A.payload())
     if rng.random() < 0.3 and not sized_root:
         root_fields.append(A.scalar(ctx.fid(), 8))
-    a = ctx.uid("SA")
+    a = ctx.uid("Ka")
     ctx.decls.append(A.struct(a, root_fields))
     # static leaf, static grandchild through an intermediate with a payload of its own
-    leaf = ctx.uid("SB")
+    leaf = ctx.uid("Kb")
     ctx.decls.append(A.struct(leaf, [A.scalar(ctx.fid(), rng.choice([8, 16, 32]))], parent_id=a,
                               constraints=[A.constraint(k, value=1)]))
-    midc = ctx.uid("SC")
+    midc = ctx.uid("Kc")
     ctx.decls.append(A.struct(midc, [A.scalar(ctx.fid(), 8), A.payload()], parent_id=a,
                               constraints=[A.constraint(k, value=2)]))
-    gleaf = ctx.uid("SD")
+    gleaf = ctx.uid("Kd")
     ctx.decls.append(A.struct(gleaf, [A.scalar(ctx.fid(), rng.choice([8, 24]))], parent_id=midc))
     ctx.structs[leaf] = "static"
     ctx.structs[gleaf] = "static"
@@ -1014,17 +1021,22 @@ def p_mix(ctx):
 
 
 def p_matrix(ctx):
-    """Systematic rather than random: one declaration per (element kind x array shape) cell, in four
+    """Systematic rather than random: one declaration per (element kind x array shape) cell, in six
     parts chosen by the description index so that every backend sees the cells it supports:
-    0 scalar-like elements, 1 struct elements, 2 padded arrays, 3 element-size fields and custom
-    elements. Guarantees that even the quick tier drives every array arm of every generator."""
+    0 scalar-like elements, 1 struct elements, 2 padded arrays, 3 element-size fields,
+    4 custom-field elements, 5 array size modifiers. Guarantees that even the quick tier drives every
+    array arm of every generator."""
     rng = ctx.rng
-    part = ctx.index % 4
+    part = ctx.index % MATRIX_PARTS
+    scalar_w = [16, 24, 32, 40, 48, 56, 64]
+    rng.shuffle(scalar_w)
+    enum_w = [8, 16, 24, 64, 32, 40]
 
-    def one(el, sh, pad=False, es=None):
+    def one(el, sh, pad=False, es=None, modifier=None, width=None):
         b = Body(ctx)
         b.maybe_noise(0.3)
-        add_array(ctx, b, 0, shapes=[sh], elems=[el], allow_pad=pad, pad_force=pad, es_force=es)
+        add_array(ctx, b, 0, shapes=[sh], elems=[el], allow_pad=pad, pad_force=pad, es_force=es,
+                  modifier=modifier, width=width)
         if sh != "unknown" and rng.random() < 0.3:
             trailing_static(ctx, b, 1)
         b.align()
@@ -1033,25 +1045,35 @@ def p_matrix(ctx):
 
     shapes = ["static", "count", "size", "unknown"]
     if part == 0:
-        for el in ("u8", "scalar", "enum"):
-            for sh in shapes:
-                one(el, sh)
+        for n, sh in enumerate(shapes):
+            one("u8", sh)
+            one("scalar", sh, width=scalar_w[n])
+            one("enum", sh, width=enum_w[n])
     elif part == 1:
         for el in ("static", "dynamic"):
             for sh in shapes:
                 one(el, sh, es=False)
     elif part == 2:
-        for el in ("u8", "scalar", "enum", "static", "dynamic"):
-            for sh in shapes[:3]:
-                one(el, sh, pad=True, es=False)
-    else:
+        for n, el in enumerate(("u8", "scalar", "enum", "static", "dynamic")):
+            for k, sh in enumerate(shapes[:3]):
+                one(el, sh, pad=True, es=False, width={"scalar": scalar_w[k], "enum": enum_w[k + 1]}.get(el))
+    elif part == 3:
         for el in ("dynamic", "greedy"):
             for sh in shapes:
                 one(el, sh, es=True)
         for sh in ("count", "size"):
             one("dynamic", sh, pad=True, es=True)
+    elif part == 4:
         for sh in shapes:
             one("custom", sh)
+        one("custom", "count", pad=True)
+    else:
+        for n, el in enumerate(("u8", "scalar", "enum", "static", "dynamic")):
+            one(el, "size", es=False, modifier=rng.choice([1, 2, 3, 7]), width={"scalar": scalar_w[n], "enum": enum_w[n % 4]}.get(el))
+        one("u8", "size", pad=True, modifier=2)
+
+
+MATRIX_PARTS = 6
 
 
 PROFILE_FN = {
